@@ -167,15 +167,17 @@ class _DatasetFillerContext:
             current_progress.shard = self._get_new_shard(split=split)
             current_progress.written_examples = 0
 
-        # Update custom_metadata is needed. Keep our own copy so that later
-        # changes of the object by the caller do not change what was recorded.
-        if custom_metadata:
-            current_progress.shard.shard_info.custom_metadata = copy.deepcopy(
-                custom_metadata)
-
         # Write the current example and update counters.
         current_progress.shard.write(values=values)
         current_progress.written_examples += 1
+
+        # Update custom_metadata is needed (only once the write succeeded, a
+        # rejected write must not label the shard). Keep our own copy so that
+        # later changes of the object by the caller do not change what was
+        # recorded.
+        if custom_metadata:
+            current_progress.shard.shard_info.custom_metadata = copy.deepcopy(
+                custom_metadata)
 
         # We have updated the current progress.
         assert self._current_shards_progress[split] == current_progress
